@@ -6,6 +6,8 @@ import eunits
 import ewrap
 import kinds
 import tables
+import eshortc
+import estep
 
 LEVEL = "E-TABLE + E-WRAP"
 
@@ -45,4 +47,13 @@ def run(ctx):
                 "{T, x, y} x {plain, complemented} and compared with and / xor on the denoted functions.")
     n = ereduce.check_bcdd_terminal_tables(ctx, F)
     ctx.floor("E-TABLE.bcdd", "operand pairs of terminal_and/terminal_xor", n, 72)
-    ctx.not_decided = "the recursive step (Shannon expansion, cofactor collection), eval, cofactors"
+    n = eshortc.run(ctx, F)
+    ctx.floor("E-TABLE.shortcut", "BCDD apply_ite operand tuples interpreted", n, 400)
+    ctx.explain("E-TABLE.step: the recursive (Shannon expansion) step is interpreted on structured abstract operands -- inner nodes "
+                "with opaque or nested children in every relative level configuration (and every complement-tag "
+                "combination for BCDDs); recursive calls are builtins with the meaning of the callee, reduce yields a node. "
+                "The returned edge must denote the operation for all values of atoms and decision variables, the new "
+                "node must respect the variable order, and a cache entry must be valid for its key.")
+    n = estep.run(ctx, F, kinds=("bdd", "bcdd", "zbdd"), parts=("bin", "ite"))
+    ctx.floor("E-TABLE.step", "situations of the recursive step (apply_bin, apply_ite, set operations)", n, 300)
+    ctx.not_decided = "eval, cofactor accessors, behaviour under memory exhaustion and parallel scheduling"
